@@ -8,10 +8,23 @@ R2  TLC behaviours (transition cover of the abstract state graph + long simulate
     every call; a behaviour whose real run differs is handed to TLC as an observed trace.
 R3  seeded random histories on the real contract (up to 6 keys, all flag settings, peer statuses, owner funds)
     validated by TLC against Trace_Staking; the C39 invariants are evaluated by TLC on every observed state.
+    R3' histories in which wallets call the REAL validator SC, which reaches the staking SC through
+    eei.ExecuteOnDestContext (stake/unStake/unBond/unJail/reStake with several keys) mixed with end-of-epoch and
+    jailing calls: observed by TLC (no validator specification), same invariants on every observed state.
 """
 import json
 import os
 import vlib
+
+import time
+
+
+def timed(ctx, name, f, *a, **kw):
+    t0 = time.time()
+    r = f(*a, **kw)
+    ctx.notes.append("stage %s %.0fs" % (name, time.time() - t0))
+    return r
+
 
 PROPS = ["C39"]
 FAMILY = "Staking"
@@ -58,6 +71,25 @@ CHECK_DEADLOCK FALSE
 """
 
 
+ACTIONS = ["Stake", "UnStake", "UnBond", "Jail", "UnJail", "Switch", "UnStakeEoE", "StakeFromQueue", "CleanQueue",
+           "ResetLastUnJailed", "UpdateMax", "UpdateMin", "Elapse", "SetPeer", "SetFunds"]
+
+
+def note_ok_actions(ctx, h):
+    """vacuity guard input: how often each specification action returned Ok on the real contract during replay"""
+    acc = ctx.coverage.setdefault("replayed_ok_calls_per_action", {})
+    for a, n in (h.stats.get("ok_actions") or {}).items():
+        acc[a] = acc.get(a, 0) + int(n)
+
+
+def vacuity_guard(ctx):
+    acc = ctx.coverage.get("replayed_ok_calls_per_action", {})
+    missing = [a for a in ACTIONS if acc.get(a, 0) == 0]
+    if missing:
+        ctx.broken.append("vacuity guard: specification actions that never succeeded on the real contract in any replayed "
+                          "behaviour: %s" % ", ".join(missing))
+
+
 def keyset(n):
     return ", ".join('"%s"' % c for c in "abcdefgh"[:n])
 
@@ -70,7 +102,7 @@ def mc_cfg(sd, name, **kw):
     return name
 
 
-def validate(ctx, sd, trace_path, nkeys, n_events, what, timeout=900):
+def validate(ctx, sd, trace_path, nkeys, n_events, what, timeout=900, obs_only=False):
     """strict validation of an observed trace; on divergence the observation-only pass; returns status.
     Invariant violations on observed states become violations with signature C39/<invariant>/<action>;
     observed occurrences of the named deviation (marks @@KD<line>) are reported with the known-finding signature."""
@@ -110,6 +142,17 @@ def validate(ctx, sd, trace_path, nkeys, n_events, what, timeout=900):
 
     open(os.path.join(sd, "t_strict.cfg"), "w").write(TRACE_CFG % dict(spec="TraceSpec", keys=keyset(nkeys), invs=INVS))
     open(os.path.join(sd, "t_obs.cfg"), "w").write(TRACE_CFG % dict(spec="ObsSpec", keys=keyset(nkeys), invs=INVS))
+    if obs_only:
+        r2 = ctx.tlc(sd, "Trace_Staking", "t_obs.cfg", workers=1, timeout=timeout, count=False,
+                     allow=("invariant", "postcondition", "property"))
+        if r2.ok:
+            ctx.cov(trace_events_observed=n_events)
+            report(r2, "observed")
+            return "observed"
+        if report(r2, "observed") == "invariant":
+            return "invariant"
+        ctx.broken.append("observation-only pass failed: %s\n%s" % (r2.error, r2.text(20)))
+        return "broken"
     r = ctx.tlc(sd, "Trace_Staking", "t_strict.cfg", workers=1, timeout=timeout, count=False,
                 allow=("invariant", "postcondition", "property"))
     if r.ok:
@@ -156,13 +199,13 @@ def run(ctx):
     inv_rest = "VIEW cvars\nINVARIANTS TypeOK " + STRICT_INVS
     if want("r1"):
         if q:
-            mc_cfg(sd, "r1a.cfg", confs="ConfsTiny", rest=inv_rest)
+            mc_cfg(sd, "r1a.cfg", confs="ConfsTiny", log="LogNone", rest=inv_rest)
         else:
-            mc_cfg(sd, "r1a.cfg", keys=keyset(4), confs="ConfsHist", funds="FundsA", rest=inv_rest)
+            mc_cfg(sd, "r1a.cfg", keys=keyset(4), confs="ConfsSmall", funds="FundsA", log="LogNone", rest=inv_rest)
         ra = ctx.tlc(sd, "MC_Staking", "r1a.cfg", timeout=3000, coverage=not q)
         ctx.notes.append("R1a %.0fs %d states" % (ra.wall, ra.distinct))
         # ---- R1 (b) the code as it is: TLC must find the stale PreviousKey
-        mc_cfg(sd, "r1b.cfg", defects="StalePrevDefect", rest=inv_rest)
+        mc_cfg(sd, "r1b.cfg", defects="StalePrevDefect", log="LogNone", rest=inv_rest)
         rb = ctx.tlc(sd, "MC_Staking", "r1b.cfg", timeout=900, allow=("invariant",))
         if rb.error != "invariant:Inv_C39_list_prev":
             ctx.broken.append("R1(b): the specification with the named deviation should violate Inv_C39_list_prev, got %s" % rb.error)
@@ -171,11 +214,15 @@ def run(ctx):
 
     exe = ctx.go_build("vh-staking")
     if want("gen"):
-        run_gen(ctx, sd, exe, q)
+        timed(ctx, "gen", run_gen, ctx, sd, exe, q)
     if want("sim"):
-        run_sim(ctx, sd, exe, q)
+        timed(ctx, "sim", run_sim, ctx, sd, exe, q)
     if want("r3"):
-        run_r3(ctx, sd, exe, q)
+        timed(ctx, "r3", run_r3, ctx, sd, exe, q)
+    if want("rv"):
+        timed(ctx, "rv", run_rv, ctx, sd, exe, q)
+    if want("gen") and want("sim"):
+        vacuity_guard(ctx)
     ctx.cov(rule=RULE)
 
 
@@ -184,7 +231,7 @@ def run_gen(ctx, sd, exe, q):
     # ---- R2a transition cover
     gen_rest = "VIEW cvars\nACTION_CONSTRAINT EmitEdge\nINVARIANTS " + INVS
     if q:
-        mc_cfg(sd, "gen.cfg", spec="GenSpec", defects="StalePrevDefect", log="LogSlim", depth=7, rest=gen_rest)
+        mc_cfg(sd, "gen.cfg", spec="GenSpec", defects="StalePrevDefect", log="LogSlim", depth=6, rest=gen_rest)
     else:
         mc_cfg(sd, "gen.cfg", spec="GenSpec", defects="StalePrevDefect", log="LogSlim", depth=8, keys=keyset(4),
                confs="ConfsSmall", nums="1", rest=gen_rest)
@@ -195,6 +242,7 @@ def run_gen(ctx, sd, exe, q):
         ctx.broken.append("behaviour export produced nothing")
     mm = ctx.path("mismatch1.ndjson")
     h = ctx.vh(exe, ["replay", beh, mm], timeout=1800)
+    note_ok_actions(ctx, h)
     ctx.cov(traces_validated_against_impl=int(h.stats.get("behaviours", 0)), evaluations=int(h.stats.get("steps", 0)),
             distinct_nontrivial=int(h.stats.get("distinct_transitions", 0)),
             known_deviation_reproduced_in_replay=int(h.stats.get("known_deviation_reproduced", 0)),
@@ -211,9 +259,10 @@ def run_sim(ctx, sd, exe, q):
            confs="ConfsFull", peers='"none", "eligible", "jailed", "bad"', funds="FundsB", nums="0, 1, 2, 3",
            auth="TRUE, FALSE", maxnj=3, rest=sim_rest)
     beh2 = ctx.path("sim.ndjson")
-    ctx.tlc(sd, "MC_Staking", "sim.cfg", simulate=150 if q else 1500, depth=40, timeout=1800, behaviours_out=beh2, count=False)
+    ctx.tlc(sd, "MC_Staking", "sim.cfg", simulate=40 if q else 600, depth=40, timeout=1800, behaviours_out=beh2, count=False)
     mm2 = ctx.path("mismatch2.ndjson")
     h2 = ctx.vh(exe, ["replay", beh2, mm2], timeout=1800)
+    note_ok_actions(ctx, h2)
     ctx.cov(traces_validated_against_impl=int(h2.stats.get("behaviours", 0)), evaluations=int(h2.stats.get("steps", 0)),
             replay_mismatching=int(h2.stats.get("mismatching", 0)),
             known_deviation_reproduced_in_replay=int(h2.stats.get("known_deviation_reproduced", 0)))
@@ -222,10 +271,22 @@ def run_sim(ctx, sd, exe, q):
 
 
 
+def run_rv(ctx, sd, exe, q):
+    # ---- R3' the staking SC reached the production way: wallets -> real validator SC -> ExecuteOnDestContext -> staking SC
+    tr = os.path.join(sd, "trace.ndjson")
+    nt, ln, nk = (60, 60, 6) if q else (800, 80, 6)
+    rv = ctx.vh(exe, ["recordv", ctx.seed, nt, ln, nk, tr])
+    st = validate(ctx, sd, tr, nk, int(rv.stats.get("events", 0)),
+                  "random history through the real validator SC", obs_only=True)
+    if st == "observed":
+        ctx.cov(traces_validated_against_impl=nt, evaluations=int(rv.stats.get("events", 0)))
+    ctx.cov(rv_actions=rv.stats.get("actions"))
+
+
 def run_r3(ctx, sd, exe, q):
     # ---- R3 random real histories validated by TLC
     tr = os.path.join(sd, "trace.ndjson")
-    nt, ln, nk = (120, 60, 6) if q else (1500, 80, 6)
+    nt, ln, nk = (100, 60, 6) if q else (1200, 80, 6)
     r3 = ctx.vh(exe, ["record", ctx.seed, nt, ln, nk, tr])
     st = validate(ctx, sd, tr, nk, int(r3.stats.get("events", 0)), "random history on the real staking contract")
     if st in ("accepted", "drift"):
